@@ -563,7 +563,25 @@ def gen_rolling(repo):
     out = [HEADER % "summer2/functions/derived.py"]
     # functions/derived.py: rolling helpers (templates over Model/Rolling.v, emitted only when the source matches)
     tree = ast.parse(open(os.path.join(repo, "summer2/functions/derived.py")).read())
-    rd = find_func(find_func(tree, "get_rolling_diff"), "rolling_diff")
+    # (the model and the theorem C16_rolling_diff are for periods >= 1: the code sends every other value, negated, to
+    # _get_rolling_diff_backward before this definition - C16_rolling_diff_backward)
+    outer = [s_ for s_ in find_func(tree, "get_rolling_diff").body if not (isinstance(s_, ast.Expr) and isinstance(s_.value, ast.Constant))]
+    expect(len(outer) == 3 and isinstance(outer[0], ast.If) and ast.dump(outer[0].test) == ast.dump(ast.parse("periods <= 0").body[0].value) and not outer[0].orelse
+           and len(outer[0].body) == 1 and isinstance(outer[0].body[0], ast.Return),
+           "get_rolling_diff: non-positive periods leave before the definition of rolling_diff")
+    expect(isinstance(outer[1], ast.FunctionDef) and outer[1].name == "rolling_diff" and src_equal(outer[2], "return rolling_diff"),
+           "get_rolling_diff: returns rolling_diff")
+    rd = outer[1]
+    expect(src_equal(outer[0].body[0], "return _get_rolling_diff_backward(-periods)"), "get_rolling_diff: non-positive periods go, negated, to the backward helper")
+    bw = [s_ for s_ in find_func(tree, "_get_rolling_diff_backward").body if not (isinstance(s_, ast.Expr) and isinstance(s_.value, ast.Constant))]
+    expect(len(bw) == 2 and isinstance(bw[0], ast.FunctionDef) and src_equal(bw[1], "return rolling_diff"), "_get_rolling_diff_backward: returns its rolling_diff")
+    bb = [s_ for s_ in bw[0].body if not (isinstance(s_, ast.Expr) and isinstance(s_.value, ast.Constant))]
+    expect(len(bb) == 5 and isinstance(bb[0], ast.If) and ast.dump(bb[0].test) == ast.dump(ast.parse("periods == 0").body[0].value)
+           and not bb[0].orelse and len(bb[0].body) == 1 and src_equal(bb[0].body[0], "return x - x"), "backward rolling_diff: period 0 is x - x")
+    expect(src_equal(bb[1], "out_arr = jnp.empty_like(x)"), "backward rolling_diff: empty_like")
+    expect(src_equal(bb[2], "out_arr = out_arr.at[:-periods].set(x[:-periods] - x[periods:])"), "backward rolling_diff: differences up to len - periods")
+    expect(src_equal(bb[3], "out_arr = out_arr.at[-periods:].set(jnp.nan)"), "backward rolling_diff: nan tail")
+    expect(src_equal(bb[4], "return out_arr"), "backward rolling_diff: return")
     rb = [s_ for s_ in rd.body if not (isinstance(s_, ast.Expr) and isinstance(s_.value, ast.Constant))]
     expect(src_equal(rb[0], "out_arr = jnp.empty_like(x)"), "rolling_diff: empty_like")
     expect(src_equal(rb[1], "out_arr = out_arr.at[periods:].set(x[periods:] - x[:-periods])"), "rolling_diff: differences from index periods")
@@ -583,6 +601,8 @@ def gen_rolling(repo):
     out.append("From S2 Require Import Model.Rolling.\n"
                "Definition gen_rolling_diff (O : NumOps) (periods : nat) (x : list (F O)) : list (option (F O)) :=\n"
                "  rolling_diff O periods x.\n"
+               "Definition gen_rolling_diff_backward (O : NumOps) (periods : nat) (x : list (F O)) : list (option (F O)) :=\n"
+               "  rolling_diff_backward O periods x.\n"
                "Definition gen_rolling_reduction (O : NumOps) (func : list (F O) -> F O) (window : nat) (x : list (F O))\n"
                "  : list (option (F O)) := rolling_reduction O func window x.\n")
     return "RollingGen.v", "\n".join(out)
